@@ -165,6 +165,17 @@ func BeforeLock(site string, mu any, kind string) {
 	}
 }
 
+// TryLock is mu.TryLock() / mu.TryRLock(): a scheduling point, then the scheduler's lock model
+// decides; when it says free the real try (which then succeeds) is made and the model updated.
+func TryLock(site string, mu any, kind string, try func() bool) bool {
+	s, t := active()
+	if s == nil {
+		return try()
+	}
+	s.park(t, site, parkYield, nil, nil, "")
+	return s.tryAcquire(t, mu, kind, try)
+}
+
 // AfterUnlock tells the scheduler's lock model that mu was released.
 func AfterUnlock(mu any, kind string) {
 	if s, t := active(); s != nil {
